@@ -107,13 +107,13 @@ type lwAnalysis struct {
 	errs   []string
 	nextID int
 	// produced values of weight >= N and carries, by id
-	produced map[int]lwVal
-	consumed map[int]bool
-	tested   map[int]bool
-	products map[[2]int]bool // cross products computed (i,j)
-	factorTested map[string]bool // "u.w1" style factors tested in the overflow condition
-	recv, arg types.Object
-	hasPanic bool
+	produced      map[int]lwVal
+	consumed      map[int]bool
+	tested        map[int]bool
+	products      map[[2]int]bool // cross products computed (i,j)
+	factorTested  map[string]bool // "u.w1" style factors tested in the overflow condition
+	recv, arg     types.Object
+	hasPanic      bool
 	overflowConds []ast.Expr
 }
 
@@ -761,7 +761,7 @@ func lwShift(c *Ctx, s *Sink, p *packages.Package, ts map[string]*lwType, self *
 	}
 	info := p.TypesInfo
 	left := fd.Name.Name == "LeftShift"
-	type depset map[int]bool
+	type depset = map[int]bool
 	union := func(a, b depset) depset {
 		r := depset{}
 		for k := range a {
@@ -772,188 +772,216 @@ func lwShift(c *Ctx, s *Sink, p *packages.Package, ts map[string]*lwType, self *
 		}
 		return r
 	}
-	a := newLW(c, p, ts, self, fd)
-	var recvObj types.Object
-	if len(fd.Recv.List[0].Names) > 0 {
-		recvObj = info.ObjectOf(fd.Recv.List[0].Names[0])
-	}
-	// state: dependence of each limb of the receiver variable (may be reassigned) and of locals
-	type state struct {
-		limb  map[int]depset // current receiver limbs
-		local map[types.Object]depset
-	}
-	clone := func(st state) state {
-		n := state{limb: map[int]depset{}, local: map[types.Object]depset{}}
-		for k, v := range st.limb {
-			n.limb[k] = union(v, nil)
+	var analyse func(fd *ast.FuncDecl, initLimbs map[int]depset, depth int) map[int]depset
+	analyse = func(fd *ast.FuncDecl, initLimbs map[int]depset, depth int) map[int]depset {
+		a := newLW(c, p, ts, self, fd)
+		var recvObj types.Object
+		if len(fd.Recv.List[0].Names) > 0 {
+			recvObj = info.ObjectOf(fd.Recv.List[0].Names[0])
 		}
-		for k, v := range st.local {
-			n.local[k] = union(v, nil)
+		// state: dependence of each limb of the receiver variable (may be reassigned) and of locals
+		type state struct {
+			limb  map[int]depset // current receiver limbs
+			local map[types.Object]depset
 		}
-		return n
-	}
-	join := func(x, y state) state {
-		n := clone(x)
-		for k, v := range y.limb {
-			n.limb[k] = union(n.limb[k], v)
-		}
-		for k, v := range y.local {
-			n.local[k] = union(n.local[k], v)
-		}
-		return n
-	}
-	init := state{limb: map[int]depset{}, local: map[types.Object]depset{}}
-	for w := 0; w < self.limbs; w++ {
-		init.limb[w] = depset{w: true}
-	}
-	var deps func(st state, e ast.Expr) depset
-	deps = func(st state, e ast.Expr) depset {
-		out := depset{}
-		ast.Inspect(e, func(n ast.Node) bool {
-			switch x := n.(type) {
-			case *ast.SelectorExpr:
-				if o, w, ok := a.fieldWeight(x); ok && o == recvObj {
-					out = union(out, st.limb[w])
-					return false
-				}
-			case *ast.Ident:
-				if d, ok := st.local[info.ObjectOf(x)]; ok {
-					out = union(out, d)
-				}
+		clone := func(st state) state {
+			n := state{limb: map[int]depset{}, local: map[types.Object]depset{}}
+			for k, v := range st.limb {
+				n.limb[k] = union(v, nil)
 			}
-			return true
-		})
-		return out
-	}
-	var result map[int]depset
-	var exec func(st state, list []ast.Stmt) (state, bool)
-	exec = func(st state, list []ast.Stmt) (state, bool) {
-		for _, stmt := range list {
-			switch x := stmt.(type) {
-			case *ast.AssignStmt:
-				// per-limb primitive: value depends on receiver operand and carry-in; carry-out on the operand only
-				if len(x.Rhs) == 1 && len(x.Lhs) == 2 {
-					if call, ok := ast.Unparen(x.Rhs[0]).(*ast.CallExpr); ok {
-						if sel, ok := call.Fun.(*ast.SelectorExpr); ok && (sel.Sel.Name == "LeftShift64" || sel.Sel.Name == "RightShift64") && len(call.Args) == 2 {
-							op := deps(st, sel.X)
-							cin := deps(st, call.Args[1])
-							if id, ok := x.Lhs[0].(*ast.Ident); ok && id.Name != "_" {
-								st.local[info.ObjectOf(id)] = union(op, cin)
-							}
-							if id, ok := x.Lhs[1].(*ast.Ident); ok && id.Name != "_" {
-								st.local[info.ObjectOf(id)] = union(op, nil)
-							}
-							continue
-						}
+			for k, v := range st.local {
+				n.local[k] = union(v, nil)
+			}
+			return n
+		}
+		join := func(x, y state) state {
+			n := clone(x)
+			for k, v := range y.limb {
+				n.limb[k] = union(n.limb[k], v)
+			}
+			for k, v := range y.local {
+				n.local[k] = union(n.local[k], v)
+			}
+			return n
+		}
+		init := state{limb: map[int]depset{}, local: map[types.Object]depset{}}
+		for w := 0; w < self.limbs; w++ {
+			init.limb[w] = union(initLimbs[w], nil)
+		}
+		var deps func(st state, e ast.Expr) depset
+		deps = func(st state, e ast.Expr) depset {
+			out := depset{}
+			ast.Inspect(e, func(n ast.Node) bool {
+				switch x := n.(type) {
+				case *ast.SelectorExpr:
+					if o, w, ok := a.fieldWeight(x); ok && o == recvObj {
+						out = union(out, st.limb[w])
+						return false
+					}
+				case *ast.Ident:
+					if d, ok := st.local[info.ObjectOf(x)]; ok {
+						out = union(out, d)
 					}
 				}
-				if len(x.Lhs) == len(x.Rhs) {
-					for i, l := range x.Lhs {
-						if id, ok := l.(*ast.Ident); ok {
-							o := info.ObjectOf(id)
-							if o == recvObj {
-								// u = Uint256{...}
-								if cl, ok := ast.Unparen(x.Rhs[i]).(*ast.CompositeLit); ok {
-									nl := map[int]depset{}
-									for w := 0; w < self.limbs; w++ {
-										nl[w] = depset{}
-									}
-									for j, el := range cl.Elts {
-										fname := ""
-										val := el
-										if kv, ok := el.(*ast.KeyValueExpr); ok {
-											fname = kv.Key.(*ast.Ident).Name
-											val = kv.Value
-										} else if j < len(self.fields) {
-											fname = self.fields[j]
-										}
-										nl[self.weight[fname]] = deps(st, val)
-									}
-									st.limb = nl
+				return true
+			})
+			return out
+		}
+		var result map[int]depset
+		var exec func(st state, list []ast.Stmt) (state, bool)
+		exec = func(st state, list []ast.Stmt) (state, bool) {
+			for _, stmt := range list {
+				switch x := stmt.(type) {
+				case *ast.AssignStmt:
+					// per-limb primitive: value depends on receiver operand and carry-in; carry-out on the operand only
+					if len(x.Rhs) == 1 && len(x.Lhs) == 2 {
+						if call, ok := ast.Unparen(x.Rhs[0]).(*ast.CallExpr); ok {
+							if sel, ok := call.Fun.(*ast.SelectorExpr); ok && (sel.Sel.Name == "LeftShift64" || sel.Sel.Name == "RightShift64") && len(call.Args) == 2 {
+								op := deps(st, sel.X)
+								cin := deps(st, call.Args[1])
+								if id, ok := x.Lhs[0].(*ast.Ident); ok && id.Name != "_" {
+									st.local[info.ObjectOf(id)] = union(op, cin)
+								}
+								if id, ok := x.Lhs[1].(*ast.Ident); ok && id.Name != "_" {
+									st.local[info.ObjectOf(id)] = union(op, nil)
 								}
 								continue
 							}
-							if id.Name != "_" {
-								st.local[o] = deps(st, x.Rhs[i])
+						}
+					}
+					if len(x.Lhs) == len(x.Rhs) {
+						for i, l := range x.Lhs {
+							if id, ok := l.(*ast.Ident); ok {
+								o := info.ObjectOf(id)
+								if o == recvObj {
+									// u = Uint256{...}
+									if cl, ok := ast.Unparen(x.Rhs[i]).(*ast.CompositeLit); ok {
+										nl := map[int]depset{}
+										for w := 0; w < self.limbs; w++ {
+											nl[w] = depset{}
+										}
+										for j, el := range cl.Elts {
+											fname := ""
+											val := el
+											if kv, ok := el.(*ast.KeyValueExpr); ok {
+												fname = kv.Key.(*ast.Ident).Name
+												val = kv.Value
+											} else if j < len(self.fields) {
+												fname = self.fields[j]
+											}
+											nl[self.weight[fname]] = deps(st, val)
+										}
+										st.limb = nl
+									}
+									continue
+								}
+								if id.Name != "_" {
+									st.local[o] = deps(st, x.Rhs[i])
+								}
 							}
 						}
 					}
-				}
-			case *ast.IfStmt:
-				s1, r1 := exec(clone(st), x.Body.List)
-				s2, r2 := clone(st), false
-				if eb, ok := x.Else.(*ast.BlockStmt); ok {
-					s2, r2 = exec(s2, eb.List)
-				} else if ei, ok := x.Else.(*ast.IfStmt); ok {
-					s2, r2 = exec(s2, []ast.Stmt{ei})
-				}
-				switch {
-				case r1 && r2:
-					return st, true
-				case r1:
-					st = s2
-				case r2:
-					st = s1
-				default:
-					st = join(s1, s2)
-				}
-			case *ast.SwitchStmt:
-				acc := clone(st)
-				hasDefault := false
-				first := true
-				for _, cc := range x.Body.List {
-					clause := cc.(*ast.CaseClause)
-					if clause.List == nil {
-						hasDefault = true
+				case *ast.IfStmt:
+					s1, r1 := exec(clone(st), x.Body.List)
+					s2, r2 := clone(st), false
+					if eb, ok := x.Else.(*ast.BlockStmt); ok {
+						s2, r2 = exec(s2, eb.List)
+					} else if ei, ok := x.Else.(*ast.IfStmt); ok {
+						s2, r2 = exec(s2, []ast.Stmt{ei})
 					}
-					sc, r := exec(clone(st), clause.Body)
-					if r {
-						continue
+					switch {
+					case r1 && r2:
+						return st, true
+					case r1:
+						st = s2
+					case r2:
+						st = s1
+					default:
+						st = join(s1, s2)
 					}
-					if first {
-						acc, first = sc, false
-					} else {
-						acc = join(acc, sc)
-					}
-				}
-				if !hasDefault {
-					if first {
-						acc = clone(st)
-					} else {
-						acc = join(acc, st)
-					}
-				}
-				st = acc
-			case *ast.ReturnStmt:
-				if len(x.Results) == 1 {
-					if cl, ok := ast.Unparen(x.Results[0]).(*ast.CompositeLit); ok {
-						res := map[int]depset{}
-						for j, el := range cl.Elts {
-							fname := ""
-							val := el
-							if kv, ok := el.(*ast.KeyValueExpr); ok {
-								fname = kv.Key.(*ast.Ident).Name
-								val = kv.Value
-							} else if j < len(self.fields) {
-								fname = self.fields[j]
-							}
-							res[self.weight[fname]] = deps(st, val)
+				case *ast.SwitchStmt:
+					acc := clone(st)
+					hasDefault := false
+					first := true
+					for _, cc := range x.Body.List {
+						clause := cc.(*ast.CaseClause)
+						if clause.List == nil {
+							hasDefault = true
 						}
-						if result == nil {
-							result = res
+						sc, r := exec(clone(st), clause.Body)
+						if r {
+							continue
+						}
+						if first {
+							acc, first = sc, false
 						} else {
-							for k, v := range res {
-								result[k] = union(result[k], v)
+							acc = join(acc, sc)
+						}
+					}
+					if !hasDefault {
+						if first {
+							acc = clone(st)
+						} else {
+							acc = join(acc, st)
+						}
+					}
+					st = acc
+				case *ast.ReturnStmt:
+					if len(x.Results) == 1 {
+						// tail call of a helper method of the same type on the (possibly re-assigned) receiver:
+						// the helper is analysed with the current dependences of the receiver limbs
+						if call, ok := ast.Unparen(x.Results[0]).(*ast.CallExpr); ok && depth < 3 {
+							if sel, ok := call.Fun.(*ast.SelectorExpr); ok && rootObj(info, sel.X) == recvObj {
+								if f := callee(info, call); f != nil {
+									if d, dp := c.DeclOf(f); d != nil && dp == p && d.Recv != nil && d.Body != nil && !hasLoop(d.Body) && recvTypeName(d.Recv.List[0].Type) == recvTypeName(fd.Recv.List[0].Type) {
+										if sub := analyse(d, st.limb, depth+1); sub != nil {
+											if result == nil {
+												result = sub
+											} else {
+												for k, v := range sub {
+													result[k] = union(result[k], v)
+												}
+											}
+										}
+									}
+								}
+							}
+						}
+						if cl, ok := ast.Unparen(x.Results[0]).(*ast.CompositeLit); ok {
+							res := map[int]depset{}
+							for j, el := range cl.Elts {
+								fname := ""
+								val := el
+								if kv, ok := el.(*ast.KeyValueExpr); ok {
+									fname = kv.Key.(*ast.Ident).Name
+									val = kv.Value
+								} else if j < len(self.fields) {
+									fname = self.fields[j]
+								}
+								res[self.weight[fname]] = deps(st, val)
+							}
+							if result == nil {
+								result = res
+							} else {
+								for k, v := range res {
+									result[k] = union(result[k], v)
+								}
 							}
 						}
 					}
+					return st, true
 				}
-				return st, true
 			}
+			return st, false
 		}
-		return st, false
+		exec(init, fd.Body.List)
+		return result
 	}
-	exec(init, fd.Body.List)
+	id := map[int]depset{}
+	for w := 0; w < self.limbs; w++ {
+		id[w] = depset{w: true}
+	}
+	result := analyse(fd, id, 0)
 	if result == nil {
 		s.Undecided(nil, key, fd.Pos(), "no composite result found")
 		return
